@@ -79,6 +79,13 @@ def jobs(tier, seed):
         out.append({'k': 3, 'fam': [list(c) for c in fam], 'present': 'sorted' if i % 2 == 0 else 'reversed', 'cfgs': cfgs, 'seed': seed})
         if len(fam) >= 2 and any(len(c) >= 2 for c in fam):
             out.append({'k': 3, 'fam': [list(c) for c in fam], 'present': 'alternating', 'cfgs': [(0.5, i % 2 == 0, 'all', 10.0)], 'seed': seed, 'late_total': i % 3 == 0})
+    # schedules of single-sweep calls and structural zeros in shared derived regions
+    for name in ('four-triples', 'window3', 'two-triples', 'loop4', 'triples-pair-single'):
+        fam = EXTRA4[name]
+        out.append({'k': 4, 'fam': [list(c) for c in fam], 'present': 'asis', 'cfgs': [(0.5, name != 'loop4', 'all', 10.0)], 'seed': seed, 'schedule': 'one-sweep-calls'})
+    for fam in ([('A', 'B', 'C'), ('A', 'B', 'D')], [('A', 'B', 'C'), ('B', 'C', 'D'), ('C', 'D', 'A')], [('A', 'B'), ('B', 'C'), ('C', 'A')]):
+        for d_ in (0.5, 0.2):
+            out.append({'k': 4, 'fam': [list(c) for c in fam], 'present': 'asis', 'cfgs': [(d_, d_ == 0.5, 'zero-child', 10.0)], 'seed': seed})
     for name, fam in EXTRA4.items():
         if name == 'four-triples' and tier == 'quick':
             continue
@@ -142,8 +149,21 @@ def run_cfg(job, cfg):
         # (so the optimum is the one of the plain potentials), but every message across that attribute has slices 1500 nats apart
         lst = S.compensate(S.ATTRS[:k], SIZES[:k], [(r, np.asarray(pots[r].values, dtype=float)) for r in regs])
         pots = CliqueVector({r: Factor(dom.project(r), a) for r, a in lst})
+    zero_cell = None
+    if pclass == 'zero-child':
+        # a structural zero (-inf) in a derived region that has two or more parents
+        cand = [r for r in regs if len(rg.parents.get(r, [])) >= 2 and dom.size(r) >= 2]
+        if cand:
+            zero_cell = (cand[0], tuple([0] * len(cand[0])))
+            pots[zero_cell[0]].values[zero_cell[1]] = -np.inf
     snap_ = {r: np.array(pots[r].values, copy=True) for r in regs}
-    mu = rg.belief_propagation(pots)
+    if job.get('schedule') == 'one-sweep-calls':
+        # the engine is driven to convergence by many calls of a single sweep each (LocalInference's default schedule)
+        rg.iters = 1
+        for _ in range(1500):
+            mu = rg.belief_propagation(pots)
+    else:
+        mu = rg.belief_propagation(pots)
     fails = []
     if any(not np.array_equal(snap_[r], np.asarray(pots[r].values)) for r in regs):
         fails.append(('potentials-mutated', 'the oracle overwrote the potentials it was given'))
@@ -154,6 +174,23 @@ def run_cfg(job, cfg):
             fails.append(('invalid', 'region %r: not a finite nonnegative table with the total' % (r,)))
     if fails:
         return fails, 0.0, 0.0, len(regs)
+    if zero_cell is not None:
+        A, b = constraint_matrix(dom, regs)
+        q = np.concatenate([np.asarray(mu[r].values, dtype=float).flatten() / T for r in regs])
+        primal = float(np.abs(A @ q - b).max())
+        if primal > 1e-7:
+            fails.append(('not-consistent', 'structural zero in %r: pseudo-marginals disagree on a shared sub-region: primal residual %.3g' % (zero_cell[0], primal)))
+        mass = float(np.asarray(mu[zero_cell[0]].values)[zero_cell[1]])
+        if mass > 1e-12 * T:
+            fails.append(('mass-on-zero', 'region %r keeps mass %.3g on its structurally impossible cell' % (zero_cell[0], mass)))
+        # the optimum with -inf is the limit of the optima with a very negative finite value
+        pots2 = CliqueVector({r: Factor(dom.project(r), np.where(np.isneginf(snap_[r]), -200.0, snap_[r])) for r in regs})
+        rg2 = RegionGraph(dom, list(fam), total=T, minimal=minimal, convex=True, iters=5000, convergence=1e-10, damping=damping)
+        mu2 = rg2.belief_propagation(pots2)
+        dmax = max(float(np.abs(np.asarray(mu[r].values) - np.asarray(mu2[r].values)).max()) for r in regs)
+        if dmax > 1e-6 * T:
+            fails.append(('not-optimal', 'structural zero in %r: result differs by %.3g (total %g) from the optimum with -200 in place of -inf' % (zero_cell[0], dmax, T)))
+        return fails, primal, 0.0, len(regs)
     A, b = constraint_matrix(dom, regs)
     q = np.concatenate([np.asarray(mu[r].values, dtype=float).flatten() / T for r in regs])
     th = np.concatenate([np.asarray(pots[r].values, dtype=float).flatten() for r in regs])
@@ -161,9 +198,10 @@ def run_cfg(job, cfg):
     g = th - np.log(np.maximum(q, 1e-300)) - 1
     lam = np.linalg.lstsq(A.T, g, rcond=None)[0]
     dual = float(np.abs(A.T @ lam - g).max())
-    if primal > 1e-7:
+    tol_ = 1e-6 if job.get('schedule') else 1e-7
+    if primal > tol_:
         fails.append(('not-consistent', 'pseudo-marginals disagree on a shared sub-region: primal residual %.3g (all nested region pairs)' % primal))
-    if dual > 1e-7:
+    if dual > tol_:
         fails.append(('not-optimal', 'stationarity of the convexified free energy violated: dual residual %.3g (primal %.3g)' % (dual, primal)))
     return fails, primal, dual, len(regs)
 
@@ -171,7 +209,7 @@ def run_cfg(job, cfg):
 def run_job(job):
     acc = Acc()
     for cfg in job['cfgs']:
-        case = {'k': job['k'], 'fam': job['fam'], 'present': job['present'], 'cfgs': [list(cfg)], 'seed': job['seed'], 'late_total': job.get('late_total', False)}
+        case = {'k': job['k'], 'fam': job['fam'], 'present': job['present'], 'cfgs': [list(cfg)], 'seed': job['seed'], 'late_total': job.get('late_total', False), 'schedule': job.get('schedule')}
         with M.quiet():
             fails, primal, dual, nreg = run_cfg(job, tuple(cfg))
         acc.case(case, nontrivial=nreg >= 2)
